@@ -31,6 +31,7 @@ type C17Req struct {
 	Acc    string `json:"acc"`
 	Method string `json:"method"`
 	Late   bool   `json:"late"` // response headers set after the informational WriteHeader calls
+	Vary   string `json:"vary"` // "own": the inner handler adds a Vary value of its own
 }
 
 type C17Mode struct {
@@ -47,6 +48,7 @@ type C17Alt struct {
 }
 
 type C17Handler struct {
+	Aborted     bool      `json:"aborted"` // the script ends with the inner handler giving up (panic(http.ErrAbortHandler))
 	Alts        []C17Alt  `json:"alts"`
 	Started     bool      `json:"started"`
 	Req         C17Req    `json:"req"`
@@ -99,6 +101,7 @@ type C17Plan struct {
 	Chunks  [][]byte
 	Inner   []byte // concatenation of the chunks of all Write ops
 	EchoVal string
+	VaryVal string // the Vary value the inner handler adds ("" = none); unique, so that a leak into another response shows
 	// RefStatus is the status net/http delivered for the same script WITHOUT the gzip wrapper
 	// (0 = no reference run was made); when present it is the expected status
 	RefStatus int
@@ -163,6 +166,9 @@ func C17MakePlan(b *C17Beh, hi int, n int64, big bool) *C17Plan {
 		p.CL = len(p.Inner)
 	}
 	p.EchoVal = fmt.Sprintf("c17-%d-%d", n, hi)
+	if h.Req.Vary == "own" {
+		p.VaryVal = fmt.Sprintf("X-C17-Vary-%d-%d", n&0xffffff, hi)
+	}
 	return p
 }
 
@@ -195,6 +201,11 @@ func (p *C17Plan) Serve(w http.ResponseWriter, before func(i int)) {
 			w.Header().Set("Content-Length", strconv.Itoa(p.CL))
 		}
 		w.Header().Set("X-C17-Echo", p.EchoVal)
+		if p.VaryVal != "" {
+			// the way the reverse proxy copies an upstream's header: appended to what is there
+			w.Header().Add("Vary", "Origin")
+			w.Header().Add("Vary", p.VaryVal)
+		}
 	}
 	if !p.H.Req.Late {
 		setHeaders()
@@ -208,6 +219,13 @@ func (p *C17Plan) Serve(w http.ResponseWriter, before func(i int)) {
 			setHeaders() // late: just before the first op that can commit the header
 		}
 		switch op.Ev {
+		case "ab":
+			// the handler gives up (what httputil.ReverseProxy does when the upstream or the client goes away mid-body)
+			setHeaders()
+			if f, ok := w.(http.Flusher); ok {
+				f.Flush() // an upstream that dies mid-body: what it produced so far is on the wire
+			}
+			panic(http.ErrAbortHandler)
 		case "fl":
 			// the way streaming handlers flush: only if the writer they were given offers it
 			if f, ok := w.(http.Flusher); ok {
@@ -301,6 +319,13 @@ func (p *C17Plan) Judge(status int, hdr http.Header, raw []byte, readErr error) 
 	if mode == "plain" && ce != p.CE {
 		add("content-encoding", "Content-Encoding %q, the inner handler set %q", ce, p.CE)
 	}
+	vary := strings.Join(hdr.Values("Vary"), ", ")
+	if p.VaryVal != "" && (!strings.Contains(vary, p.VaryVal) || !strings.Contains(vary, "Origin")) {
+		add("vary-lost", "Vary %q, the inner handler added \"Origin\" and %q", vary, p.VaryVal)
+	}
+	if i := strings.Index(vary, "X-C17-Vary-"); i >= 0 && (p.VaryVal == "" || strings.Count(vary, "X-C17-Vary-") > 1 || !strings.Contains(vary, p.VaryVal)) {
+		add("foreign-header", "Vary %q carries a value that another response's inner handler set (own value: %q)", vary, p.VaryVal)
+	}
 	if got := hdr.Get("X-C17-Echo"); got != p.EchoVal {
 		add("other-header", "header X-C17-Echo %q, the inner handler set %q", got, p.EchoVal)
 	}
@@ -369,7 +394,7 @@ func (p *C17Plan) Features(sub, clause string) map[string]any {
 		}
 	}
 	return map[string]any{"sub": sub, "clause": clause, "ae": p.H.Req.Ae, "ct": p.H.Req.Ct, "encoded": p.H.Req.Enc != "",
-		"sse": p.H.Req.Acc == "sse", "method": p.H.Req.Method, "informational": info, "late_headers": p.H.Req.Late, "flush": fl}
+		"sse": p.H.Req.Acc == "sse", "method": p.H.Req.Method, "informational": info, "late_headers": p.H.Req.Late, "flush": fl, "own_vary": p.VaryVal != ""}
 }
 
 // Describe renders the concrete request/response of the plan.
@@ -381,6 +406,8 @@ func (p *C17Plan) Describe() string {
 			ops = append(ops, fmt.Sprintf("WriteHeader(%d)", op.Code))
 		} else if op.Ev == "fl" {
 			ops = append(ops, "Flush()")
+		} else if op.Ev == "ab" {
+			ops = append(ops, "panic(http.ErrAbortHandler)")
 		} else {
 			ops = append(ops, fmt.Sprintf("Write(%d bytes %s)", len(p.Chunks[k]), op.Chunk))
 			k++
